@@ -147,3 +147,39 @@ def ground_hierarchy():
 
 
 GROUND.append(('ground/counter-hierarchy', 'declared within-relation of book/report/article contains LaTeX chains, acyclic, table well formed', ground_hierarchy))
+
+
+# ---------------------------------------------------------------- nested enumerate lists: items count 1,2,3 within each list
+def _gen_list(rng, depth):
+    items = []
+    for _ in range(rng.randrange(1, 4)):
+        body = 'x'
+        if depth < 4 and rng.random() < 0.6:
+            body += ''.join(_gen_list(rng, depth + 1) for _ in range(rng.randrange(1, 3)))
+        items.append('\\item ' + body)
+    return '\\begin{enumerate}' + ' '.join(items) + '\\end{enumerate}'
+
+
+def check_lists(w):
+    from plasTeX.TeX import TeX
+    from plasTeX.Base.LaTeX.Lists import List
+    List.depth = 0
+    t = TeX()
+    t.input('\\documentclass{article}\\begin{document}%s\\end{document}' % w['src'])
+    d = t.parse()
+    ok, detail = True, ''
+
+    def walk(node):
+        nonlocal ok, detail
+        for ch in getattr(node, 'childNodes', []):
+            if getattr(ch, 'nodeName', None) == 'enumerate':
+                pos = [it.position for it in ch.childNodes if getattr(it, 'nodeName', None) == 'item']
+                if pos != list(range(1, len(pos) + 1)):
+                    ok, detail = False, 'items of a list numbered %r in %s' % (pos, w['src'])
+            walk(ch)
+    walk(d)
+    List.depth = 0
+    return ok, detail
+
+
+CONTRACTS['List.invoke'] = dict(check=check_lists, gen=lambda rng: {'src': ' '.join(_gen_list(rng, 1) for _ in range(rng.randrange(1, 3)))})
